@@ -220,6 +220,8 @@ def check_channel_dtype(rec, ch, tf, mode, raw_ts, is_ts, where):
 
 def check(case, rec):
     from nptdms import TdmsFile
+    if case.get('twin'):
+        return check_twin(case, rec)
     if case.get('matrix'):
         fs = build_matrix_file(case)
         t = case['type']
@@ -260,6 +262,39 @@ def check(case, rec):
 
 
 @st.composite
+def twin_case(draw):
+    return {'twin': True, 'fs': draw(S.twin_long_file())}
+
+
+def check_twin(case, rec):
+    """100+ segment files whose channels share a long prefix of per-segment counts: every full read of every channel,
+    in both channel orders on one lazily opened file, has len(channel) elements of channel.dtype"""
+    from nptdms import TdmsFile
+    data, _i, _l = encode_file(case['fs'])
+    rec.nontrivial(True)
+    rec.label('long_twin_file')
+    for order in (1, -1):
+        ok, tf = rec.guard('open:lazy', lambda: TdmsFile.open(io.BytesIO(data)))
+        if not ok:
+            return
+        with tf:
+            chans = [ch for g in tf.groups() for ch in g.channels()][::order]
+            for ch in chans:
+                n = len(ch)
+                for name, fn in (('[:]', lambda: len(ch[:])), ('read_data()', lambda: len(ch.read_data())),
+                                 ('iteration', lambda: sum(1 for _ in ch)),
+                                 ('channel.data_chunks()', lambda: sum(len(c[:]) for c in ch.data_chunks())),
+                                 ('len of chunks', lambda: sum(len(c) for c in ch.data_chunks()))):
+                    ok, got = rec.guard('twin:' + name, fn)
+                    if ok and got != n:
+                        rec.violation('len:lazy:' + name, '%s: %s delivers %d values, len(channel) = %d (channels read %s)' % (
+                            ch.path, name, got, n, 'first to last' if order == 1 else 'last to first'))
+                ok, arr = rec.guard('twin:[:]', lambda: ch[:])
+                if ok and hasattr(arr, 'dtype') and not dtype_ok(arr.dtype, ch.dtype):
+                    rec.violation('dtype:lazy:[:]', '%s [:] has dtype %s, channel.dtype %s' % (ch.path, arr.dtype, ch.dtype))
+
+
+@st.composite
 def c01_case(draw):
     return {'fs': draw(S.file_spec(max_segments=3, max_channels=4, max_n=3, props=False))}
 
@@ -276,7 +311,9 @@ def jobs(tier):
     if tier == 'quick':
         return base + [Job('random_graphs', 'hyp', lambda: c13_cases(noop=True), n=1500),
                        Job('c01_files', 'hyp', c01_case, n=500),
-                       Job('daqmx_files', 'hyp', daqmx_case, n=300)]
+                       Job('daqmx_files', 'hyp', daqmx_case, n=300),
+                       Job('long_files_shared_offset_prefix', 'hyp', twin_case, n=48, check=check_twin)]
     return base + [Job('random_graphs', 'hyp', lambda: c13_cases(noop=True), n=50000),
                    Job('c01_files', 'hyp', c01_case, n=20000),
-                   Job('daqmx_files', 'hyp', daqmx_case, n=10000)]
+                   Job('daqmx_files', 'hyp', daqmx_case, n=10000),
+                   Job('long_files_shared_offset_prefix', 'hyp', twin_case, n=1500, check=check_twin)]
